@@ -72,9 +72,9 @@ def _fault_job(args):
             info2 = s.apply(tuple(op), check=True)
             explore._merge_vios(vios, s.take_violations())
             if info2.get("status") in (423, 500, 0, None) and not info2.get("success"):
-                sig = "C01|%s|write-refused-after-failed-write:%s:%s" % (cfg.label, op[0], info2.get("status"))
-                vios.setdefault(sig, {"summary": "after a write that failed with an injected ENOSPC at %s, repeating it is answered %s" % (f.get("fired"), info2.get("status")),
-                                      "witness": {"config": cfg.label, "history": [list(h) for h in hist], "op": list(op), "fault_point": k, "fired": f.get("fired")}, "count": 0})["count"] += 1
+                # noted in the evidence, not judged: I/O faults are outside the properties' quantifiers, and only the
+                # property's own observable-state oracles are applied to fault-injected requests
+                stats["followup_refused"] = stats.get("followup_refused", 0) + 1
         finally:
             s.close()
     return vios, stats
@@ -90,14 +90,15 @@ def fault_phase(prop, rep, cfgs, histories, ops, workers=None, maxk=60):
     ctx = mp.get_context("fork")
     with ctx.Pool(workers or 16) as pool:
         results = pool.map(_fault_job, jobs, chunksize=1)
-    tot = {"cases": 0, "failed_requests": 0, "succeeded_despite_fault": 0, "requests": 0}
+    tot = {"cases": 0, "failed_requests": 0, "succeeded_despite_fault": 0, "requests": 0, "followup_refused": 0}
     for vios, stats in results:
+        stats.setdefault("followup_refused", 0)
         for sig, e in vios.items():
             if sig.startswith(prop + "|"):
                 rep.violation(sig.replace("|", "|fault-injected|", 1) if False else sig, e["summary"], e["witness"])
         for k in tot:
             tot[k] += stats[k]
-    return {"fault_injection": {"single_ENOSPC_placements_executed": tot["cases"], "requests_that_failed": tot["failed_requests"], "requests_that_still_succeeded": tot["succeeded_despite_fault"], "jobs": len(jobs)}}
+    return {"fault_injection": {"single_ENOSPC_placements_executed": tot["cases"], "requests_that_failed": tot["failed_requests"], "requests_that_still_succeeded": tot["succeeded_despite_fault"], "same_request_refused_when_repeated_without_fault (not judged)": tot["followup_refused"], "jobs": len(jobs)}}
 
 
 class StoreCfg:
@@ -115,7 +116,7 @@ class StoreCfg:
         return storesys.StoreSys(label=self.label, **self.kw)
 
 
-def run_configs(prop, tier, configs, depth_of, workers=None, level="model_checking", assumptions=None, rule=None, post=None, min_success=1, faults=None):
+def run_configs(prop, tier, configs, depth_of, workers=None, level="model_checking", assumptions=None, rule=None, post=None, min_success=1, faults=None, seeds=None, extra=None):
     """Explore every config; collect violations of `prop` only."""
     rep = Reporter(prop, tier)
     tot = {"states": 0, "transitions": 0, "replays": 0, "requests": 0, "successes": 0}
@@ -128,7 +129,8 @@ def run_configs(prop, tier, configs, depth_of, workers=None, level="model_checki
     for cfg in configs:
         depth, max_states = depth_of(cfg)
         factory = cfg.make if hasattr(cfg, "make") else (lambda cfg=cfg: davsys.DavSys(cfg))
-        res = explore.explore(factory, max_depth=depth, workers=workers, max_states=max_states)
+        seed_h = seeds(cfg) if seeds else ()
+        res = explore.explore(factory, max_depth=depth, workers=workers, max_states=max_states, seed_histories=seed_h)
         for e in res.errors:
             rep.harness_error(e[:2000])
         for sig, e in res.violations.items():
@@ -139,7 +141,7 @@ def run_configs(prop, tier, configs, depth_of, workers=None, level="model_checki
             tot[k] += getattr(res, k)
         for oc, n in res.outcomes.items():
             outcomes[oc] = outcomes.get(oc, 0) + n
-        per_cfg.append({"config": cfg.label, "states": res.states, "transitions": res.transitions, "max_depth": res.max_depth,
+        per_cfg.append({"config": cfg.label, "seeded_start_states": len(seed_h), "states": res.states, "transitions": res.transitions, "max_depth": res.max_depth,
                         "fixpoint": res.fixpoint, "caps": res.caps, "levels": res.levels, "successful_writes": res.successes})
         if not res.fixpoint:
             fix_all = False
@@ -150,6 +152,8 @@ def run_configs(prop, tier, configs, depth_of, workers=None, level="model_checki
     extra_cov = {}
     if post:
         extra_cov = post(rep, all_obs) or {}
+    if extra:
+        extra_cov.update(extra(rep) or {})
     if faults:
         fc = fault_phase(prop, rep, faults.get("configs", configs), faults["histories"], faults["ops"], workers=workers)
         extra_cov.update(fc)
